@@ -6,6 +6,9 @@ import lib, gen
 from props import common
 
 
+TIGHT = {"arith", "iarith", "jumplink", "jumplinkr", "basic", "branch", "store", "load", "loadaddr", "csr", "csri"}
+
+
 def parse_items(line):
     """'K(kind payload a.b.c d.e.f) ...' -> list of dicts"""
     out = []
@@ -159,6 +162,24 @@ def run(ctx):
                     failing.append(dict(profile="debug", kind=tag, files=f, impl=nm.group(0),
                                         why="node range %d..%d (file %s) does not cover its own token at %d..%d (file %s)" % (ns, ne, nf, os_, oe, of)))
                     break
+        # an instruction's range is mnemonic through last operand: behind its last operand token there is at most the
+        # closing parenthesis - no comment, no newline, no token of the next statement
+        allnodes = list(re.finditer(r"N\((\w+) ([^|]*?) \| (\d+)\.(\d+)\.(\d+)-(\d+)\.(\d+)\.(\d+)/(\d+)\)", a))
+        for nm in allnodes:
+            if nm.group(1) not in TIGHT or int(nm.group(9)) >= len(order):
+                continue
+            t = order[int(nm.group(9))]
+            ns, ne = int(nm.group(5)), int(nm.group(8))
+            # (the two nodes of an expansion - `lw rd, label` - share one statement: its tokens are those of both)
+            same = [x for x in allnodes if x.groups()[2:] == nm.groups()[2:]]
+            ends = [int(om.group(6)) for x in same for om in re.finditer(r"@(\d+)\.(\d+)\.(\d+)-(\d+)\.(\d+)\.(\d+)/(\d+)", x.group(2)) if om.group(7) == nm.group(9)]
+            if not ends or ne >= len(t):
+                continue
+            tail = t[max(ends) + 1:ne + 1]
+            if "\n" in t[ns:ne + 1] or not re.match(r"^[ \t]*\)?$", tail):
+                failing.append(dict(profile="debug", kind=tag, files=f, impl=nm.group(0),
+                                    why="the range of the %s statement %r runs on behind its last operand over %r" % (nm.group(1), t[ns:max(ends) + 1], tail)))
+                break
         for out, what in ((a, "parser output"), (d, "diagnostic")):
             for mm in RANGE.finditer(lib._PICKS.sub("", out)):
                 sl, sc, sr, el, ec, er, fi = (int(x) for x in mm.groups())
